@@ -505,10 +505,24 @@ fn run_history(mode: &str, thr: f32, min_conf: f32, max_idle: usize, pw: f32, vw
             // pairs OUT of bounding-circle reach (too_far) which the chi-square gate alone would admit: they must not be
             // continued ("within bounding-circle reach of the track's last box"); listed so that the oracle can name them
             let mut farok = vec![];
+            // raw material for the INDEPENDENT gate oracle of the driver: the last predicted box of every eligible track
+            // (as reported by the tracker itself) and, in Mahalanobis mode, the squared distance of every pair from the
+            // public Kalman API on the shadow state (not through calculate_cost)
+            let tb: Vec<String> = elig
+                .iter()
+                .map(|id| {
+                    let b = &known[id].last;
+                    format!("{}:{}/{}/{}/{}/{}", id, f32b(b.xc), f32b(b.yc), b.angle.map(f32b).unwrap_or_else(|| "-".into()), f32b(b.aspect), f32b(b.height))
+                })
+                .collect();
+            let mut d2 = vec![];
             for (d, (cb, _)) in cands.iter().enumerate() {
                 let conf = if cb.confidence < min_conf { min_conf } else { cb.confidence };
                 for id in &elig {
                     let k = &known[id];
+                    if mode != "iou" {
+                        d2.push(format!("{}:{}:{}", d, id, f32b(f.distance(k.state, cb))));
+                    }
                     if Universal2DBox::too_far(cb, &k.last) {
                         if mode != "iou" {
                             let dist = f.distance(k.state, cb);
@@ -563,7 +577,7 @@ fn run_history(mode: &str, thr: f32, min_conf: f32, max_idle: usize, pw: f32, vw
                 known.insert(id, Known { last: pb, epoch, state: st });
             }
             println!(
-                "e2e call={} mode={} thrz={} nd={} elig={} pairs={} farok={} chosen={} shadow_bad={} anomalies={}",
+                "e2e call={} mode={} thrz={} nd={} elig={} pairs={} farok={} chosen={} shadow_bad={} anomalies={} tb={} d2={}",
                 ci,
                 mode,
                 thrz,
@@ -573,12 +587,14 @@ fn run_history(mode: &str, thr: f32, min_conf: f32, max_idle: usize, pw: f32, vw
                 if farok.is_empty() { "-".to_string() } else { farok.join(",") },
                 if chosen.is_empty() { "-".to_string() } else { chosen.join(",") },
                 shadow_bad,
-                if anomalies.is_empty() { "-".to_string() } else { anomalies.join("+") }
+                if anomalies.is_empty() { "-".to_string() } else { anomalies.join("+") },
+                if tb.is_empty() { "-".to_string() } else { tb.join(";") },
+                if d2.is_empty() { "-".to_string() } else { d2.join(",") }
             );
         }
     });
     if res.is_none() {
-        println!("e2e call=-1 mode={} thrz={} nd=0 elig=- pairs=- farok=- chosen=- shadow_bad=0 anomalies=PANIC", mode, thrz);
+        println!("e2e call=-1 mode={} thrz={} nd=0 elig=- pairs=- farok=- chosen=- shadow_bad=0 anomalies=PANIC tb=- d2=-", mode, thrz);
     }
     println!("e2eend");
 }
@@ -643,6 +659,80 @@ fn gen_history(rng: &mut Rng) -> Vec<Vec<(f32, f32, f32, f32, f32)>> {
         rng.shuffle(&mut dets);
         calls.push(dets);
     }
+    calls
+}
+
+/// truncated / merged detections: an object that hardly moves is reported with its width (sometimes its height) scaled by
+/// 0.2 .. 4, inside or around the previous box, so that the two boxes' ASPECT ratios differ markedly and the IoU
+/// (area ratio for nested boxes) lands around the usual thresholds
+fn gen_aspect_history(rng: &mut Rng) -> Vec<Vec<(f32, f32, f32, f32, f32)>> {
+    let nobj = 1 + rng.below(2) as usize;
+    let frames = 3 + rng.below(6) as usize;
+    let factors = [0.2f32, 0.24, 0.27, 0.33, 0.45, 0.55, 0.8, 1.0, 1.0, 1.5, 2.2, 3.0, 3.6, 4.0];
+    let mut objs: Vec<(f32, f32, f32, f32)> = vec![]; // xc, yc, w, h
+    for i in 0..nobj {
+        let h = 10.0 + rng.below(4) as f32 * 10.0;
+        let w = h * *rng.pick(&[0.5f32, 1.0, 2.0]);
+        objs.push((200.0 + 500.0 * i as f32, 200.0, w, h));
+    }
+    let mut calls = vec![];
+    for fr in 0..frames {
+        let mut dets = vec![];
+        for o in &objs {
+            let (mut w, mut h) = (o.2, o.3);
+            let (mut xc, yc) = (o.0, o.1);
+            if fr > 0 {
+                let k = *rng.pick(&factors);
+                if rng.chance(1, 5) {
+                    h = ((h * k) * 4.0).round() / 4.0;
+                } else {
+                    w = ((w * k) * 4.0).round() / 4.0;
+                    // a truncated detection may sit at the left/right end of the object instead of its middle
+                    if k < 1.0 && rng.chance(1, 2) {
+                        xc += (o.2 - w) / 2.0 * if rng.chance(1, 2) { 1.0 } else { -1.0 };
+                    }
+                }
+            }
+            let conf = if rng.chance(1, 6) { 0.9 } else { 1.0 };
+            dets.push((xc - w / 2.0, yc - h / 2.0, w.max(0.5), h.max(0.5), conf));
+        }
+        calls.push(dets);
+    }
+    calls
+}
+
+/// a still object for a few frames, then ONE probe displaced so that its squared Mahalanobis distance to the track's
+/// filter state lands near `target` (bisection on a private copy of the filter, as the tracker runs it)
+fn gen_probe_history(rng: &mut Rng, pw: f32, vw: f32, target: f32) -> Vec<Vec<(f32, f32, f32, f32, f32)>> {
+    let f = Universal2DBoxKalmanFilter::new(pw, vw);
+    let w = 8.0 + rng.below(5) as f32 * 4.0;
+    let h = 8.0 + rng.below(5) as f32 * 6.0;
+    let still = 2 + rng.below(4) as usize;
+    let (l, t) = (100.0f32, 100.0f32);
+    let mk = |dx: f32, dy: f32| Universal2DBox::ltwh(l + dx, t + dy, w, h);
+    let b0 = mk(0.0, 0.0);
+    let smooth = |b: &Universal2DBox| {
+        let st = f.update(&f.predict(&f.initiate(b)), b);
+        (Universal2DBox::try_from(st).unwrap(), st)
+    };
+    let mut state = smooth(&b0).1;
+    for _ in 1..still {
+        state = f.update(&f.predict(&state), &smooth(&b0).0);
+    }
+    let diag = rng.chance(1, 3);
+    let dist_at = |x: f32| f.distance(state, &smooth(&mk(x, if diag { x / 2.0 } else { 0.0 })).0);
+    let (mut lo, mut hi) = (0.0f32, 4.0 * (w + h));
+    for _ in 0..50 {
+        let mid = (lo + hi) / 2.0;
+        if dist_at(mid) < target {
+            lo = mid;
+        } else {
+            hi = mid;
+        }
+    }
+    let dx = hi;
+    let mut calls: Vec<Vec<(f32, f32, f32, f32, f32)>> = (0..still).map(|_| vec![(l, t, w, h, 1.0)]).collect();
+    calls.push(vec![(l + dx, t + if diag { dx / 2.0 } else { 0.0 }, w, h, 1.0)]);
     calls
 }
 
@@ -832,10 +922,18 @@ fn main() {
                     // bounding circles, so that the circle-reach clause of the gate is the one that decides), histories with
                     // far jumps and small boxes every other time
                     let (pw, vw) = if (k / 3) % 4 == 0 { (pws[0], vws[0]) } else { (*rng.pick(&pws), *rng.pick(&vws)) };
+                    if (k / 3) % 3 == 2 {
+                        // chi-square boundary sweep: probes with d^2 around the 95% quantile for 5 degrees of freedom
+                        let (pw, vw) = if rng.chance(2, 3) { (pws[0], vws[0]) } else { (pws[1], vws[0]) };
+                        let target = 10.0 + (rng.below(41) as f32) * 0.1;
+                        let calls = gen_probe_history(&mut rng, pw, vw, target);
+                        run_history("maha", 1.0, min_conf, max_idle.max(1), pw, vw, &calls);
+                        continue;
+                    }
                     let calls = if (k / 3) % 2 == 1 { gen_jump_history(&mut rng) } else { gen_history(&mut rng) };
                     run_history("maha", 1.0, min_conf, max_idle, pw, vw, &calls);
                 } else {
-                    let calls = gen_history(&mut rng);
+                    let calls = if k % 3 == 1 && (k / 3) % 2 == 0 { gen_aspect_history(&mut rng) } else { gen_history(&mut rng) };
                     let thr = *rng.pick(&[0.3f32, 0.3, 0.25, 0.5, 0.1]);
                     run_history("iou", thr, min_conf, max_idle, 1.0 / 20.0, 1.0 / 160.0, &calls);
                 }
